@@ -12,7 +12,17 @@ abstract classes, diamonds, bounds, defaults, symmetric opposites, operations)
 and for arbitrary class bodies, the description reflected from the REAL static
 module (both styles) and from the REAL dynamic construction equals
 run_staticdecl (Model/StaticDecl.v) on the same abstract description; the
-oracle there: static and dynamic reflect the same ORDERED description."""
+oracle there: static and dynamic reflect the same ORDERED description.
+Behaviour scenarios on instances of both renderings driven through the SAME
+calls (own PRNG streams, replayable cases with 'scenario','seed','tier',
+'history'): `clash` -- multiple inheritance over branches of different depth
+whose classes declare attributes / operations of the same name with other
+types / parameters (default read, values of every candidate type, eIsSet,
+unset, calls with every declared arity, final state, Python MRO, cross-load of
+the saved document) -- and `keyword-ops` -- operations named after soft
+keywords (plain method names), hard keywords (trailing underscore) and plain
+names, overridden in subclasses; results, exception classes and notifications
+are compared rendering against rendering (never find-vs-getattr)."""
 import copy
 import os
 import tempfile
